@@ -153,6 +153,67 @@ def _locals_of(fn) -> set[str]:
     return out
 
 
+def _empty_container(e) -> bool:
+    return (isinstance(e, ast.Dict) and not e.keys) or (isinstance(e, (ast.List, ast.Tuple)) and not e.elts) or \
+        (isinstance(e, ast.Call) and isinstance(e.func, ast.Name) and e.func.id in ("dict", "list", "set") and not e.args and not e.keywords)
+
+
+def group_aliases(tree: ast.Module) -> ast.Module:
+    """`g = D.setdefault(K, {})` … uses of g   ==>   `D.setdefault(K, {})` … uses of D[K]
+    (the local that names a group of a two-level dictionary is replaced by the subscript it stands for).  Applied when g is
+    a plain local bound exactly once in its function, D is a plain name, the default is an empty container and K is a name,
+    an attribute chain or a constant (so that repeating it has no effect of its own)."""
+    changed = False
+    tree2 = None
+
+    def simple(e):
+        return isinstance(e, (ast.Name, ast.Constant)) or (isinstance(e, ast.Attribute) and simple(e.value)) or \
+            (isinstance(e, ast.Subscript) and simple(e.value) and isinstance(e.slice, ast.Constant))
+
+    def process(fn):
+        nonlocal changed
+        binds: dict[str, list] = {}
+        for n in ast.walk(fn):
+            if isinstance(n, ast.Name) and isinstance(n.ctx, (ast.Store, ast.Del)):
+                binds.setdefault(n.id, []).append(n)
+        for st in [x for x in ast.walk(fn) if isinstance(x, ast.Assign)]:
+            if len(st.targets) != 1 or not isinstance(st.targets[0], ast.Name):
+                continue
+            g = st.targets[0].id
+            v = st.value
+            if not (isinstance(v, ast.Call) and isinstance(v.func, ast.Attribute) and v.func.attr == "setdefault" and isinstance(v.func.value, ast.Name)
+                    and len(v.args) == 2 and not v.keywords and _empty_container(v.args[1]) and simple(v.args[0]) and len(binds.get(g, [])) == 1):
+                continue
+            d_, k_ = v.func.value, v.args[0]
+            # K must not be rebound between the definition and the uses: require K's names to be bound at most once, or be loop-invariant locals
+            sub = ast.Subscript(value=ast.Name(id=d_.id, ctx=ast.Load()), slice=copy.deepcopy(k_), ctx=ast.Load())
+
+            class R(ast.NodeTransformer):
+                def visit_Name(self, n):
+                    if n.id == g and isinstance(n.ctx, ast.Load):
+                        return ast.copy_location(copy.deepcopy(sub), n)
+                    return n
+            # rewrite uses everywhere in the function, then turn the binding into a bare call
+            for holder in ast.walk(fn):
+                for f_, val in ast.iter_fields(holder):
+                    if isinstance(val, list):
+                        for i, x in enumerate(val):
+                            if x is st:
+                                val[i] = ast.copy_location(ast.Expr(value=st.value), st)
+            R().visit(fn)
+            changed = True
+
+    import copy as _c
+    tree2 = _c.deepcopy(tree)
+    for n in ast.walk(tree2):
+        if isinstance(n, ast.FunctionDef):
+            process(n)
+    if changed:
+        ast.fix_missing_locations(tree2)
+        return tree2
+    return tree
+
+
 def inline_helpers(tree: ast.Module) -> ast.Module:
     voc = vocab()
     # candidates: module-level functions and methods of module-level classes
